@@ -177,23 +177,39 @@ func translate(repo string, spec fnSpec) string {
 	return sb.String()
 }
 
-func main() {
-	if len(os.Args) != 3 {
-		fail("usage: go2coq <repo> <out.v>")
-	}
-	repo, out := os.Args[1], os.Args[2]
-	var sb strings.Builder
-	sb.WriteString("(* GENERATED by /verif/go2coq from the repository's Go source on every run of bin/check.\n   Do not edit: the proofs in Proofs/PrunerGenProofs.v are re-checked against this text. *)\n")
-	sb.WriteString("From ZV Require Import Base.Prelude Model.Pruner.\n\n")
-	sb.WriteString(translate(repo, fnSpec{file: "compiler/optimizer/optimizer.go", name: "reverseComparator", retType: "cop"}))
-	sb.WriteString(translate(repo, fnSpec{file: "compiler/optimizer/optimizer.go", name: "rangePrunerPred", params: " (literal : key)", retType: "pexpr",
-		env: map[string]string{"literal": "(Lit literal)", "min": "Min", "max": "Max"}}))
-	text := sb.String()
+func writeIfChanged(out, text string) {
 	old, _ := os.ReadFile(out)
 	if string(old) != text {
 		if err := os.WriteFile(out, []byte(text), 0644); err != nil {
 			fail("%v", err)
 		}
 		fmt.Println("CHANGED: " + out)
+	}
+}
+
+func genOptimizer(repo string) string {
+	var sb strings.Builder
+	sb.WriteString("(* GENERATED by /verif/go2coq from the repository's Go source on every run of bin/check.\n   Do not edit: the proofs in Proofs/PrunerGenProofs.v are re-checked against this text. *)\n")
+	sb.WriteString("From ZV Require Import Base.Prelude Model.Pruner.\n\n")
+	sb.WriteString(translate(repo, fnSpec{file: "compiler/optimizer/optimizer.go", name: "reverseComparator", retType: "cop"}))
+	sb.WriteString(translate(repo, fnSpec{file: "compiler/optimizer/optimizer.go", name: "rangePrunerPred", params: " (literal : key)", retType: "pexpr",
+		env: map[string]string{"literal": "(Lit literal)", "min": "Min", "max": "Max"}}))
+	return sb.String()
+}
+
+func main() {
+	if len(os.Args) < 3 {
+		fail("usage: go2coq <repo> <out.v>...   (OptimizerGen.v, ParallelizeGen.v)")
+	}
+	repo := os.Args[1]
+	for _, out := range os.Args[2:] {
+		switch filepath.Base(out) {
+		case "OptimizerGen.v":
+			writeIfChanged(out, genOptimizer(repo))
+		case "ParallelizeGen.v":
+			writeIfChanged(out, genParallelize(repo))
+		default:
+			fail("no generator for %s", out)
+		}
 	}
 }
